@@ -1,5 +1,6 @@
 #!/bin/bash
 # usage: confirm_seed.sh <seed out dir> <package dir for the demo> <go test -run regex> [nobaseline]
+# (env RACE=-race runs the demo with the race detector)
 # Confirms in a scratch worktree: demo passes without the change, change applies and builds,
 # demo fails with the change, the stable baseline still passes with the change.  Prints a JSON summary.
 S=$(readlink -f $1); PKG=$2; RUN=$3; NB=${4:-}
@@ -10,10 +11,10 @@ cd $W
 touch dbms/server.crt dbms/server.key
 cp $S/demo_test.go $PKG/zz_seed_demo_test.go
 for f in $S/demo_*_test.go; do [ -f "$f" ] && cp $f $PKG/zz_$(basename $f); done 2>/dev/null
-go test -vet=off -count=1 -run "$RUN" ./$PKG/ > $W.without.log 2>&1; without=$?
+go test $RACE -timeout 300s -vet=off -count=1 -run "$RUN" ./$PKG/ > $W.without.log 2>&1; without=$?
 git apply $S/patch.diff; applied=$?
 go build ./db19/... ./core/... ./compile/... ./util/... ./dbms/query/... > $W.build.log 2>&1; build=$?
-go test -vet=off -count=1 -run "$RUN" ./$PKG/ > $W.with.log 2>&1; with=$?
+go test $RACE -timeout 300s -vet=off -count=1 -run "$RUN" ./$PKG/ > $W.with.log 2>&1; with=$?
 rm -f dbms/server.crt dbms/server.key $PKG/zz_seed_demo_test.go $PKG/zz_demo_*_test.go
 base="skipped"
 if [ -z "$NB" ]; then base=$(/verif/tools/baseline.sh $W 2>&1 | grep "stable:" ); fi
